@@ -126,6 +126,32 @@ func hasRefs(c *caseCfg) bool {
 	return false
 }
 
+func decList(w []string, k string) []string {
+	v, ok := proto.KV(w, k)
+	if !ok || v == "" || v == "-" {
+		return nil
+	}
+	var out []string
+	for _, x := range strings.Split(v, ",") {
+		out = append(out, proto.Dec(x))
+	}
+	return out
+}
+
+// decPairs: `k:v,k:v,k` (a key without value gets the value "\x00")
+func decPairs(w []string, k string) [][2]string {
+	var out [][2]string
+	for _, x := range decList(w, k) {
+		p := strings.SplitN(x, ":", 2)
+		if len(p) == 2 {
+			out = append(out, [2]string{p[0], p[1]})
+		} else {
+			out = append(out, [2]string{p[0], "\x00"})
+		}
+	}
+	return out
+}
+
 func joinOr(xs []string, sep string) string {
 	if len(xs) == 0 {
 		return "-"
@@ -175,11 +201,16 @@ func exec(c proto.Case, o *proto.Out) []string {
 			outs[i] = "ok"
 		case "flow":
 			kind, _ := proto.KV(w, "kind")
-			if len(w) != 3 || kind != "user" {
+			if len(w) < 3 || w[2] != "kind=user" {
 				outs[i] = "bad-op"
 				break
 			}
-			cfg.flows = append(cfg.flows, &flowDef{name: proto.Dec(w[1]), kind: kind})
+			fd := &flowDef{name: proto.Dec(w[1]), kind: kind}
+			fd.methods = decList(w, "m")
+			fd.headers = decPairs(w, "h")
+			fd.status = decList(w, "st")
+			fd.query = decPairs(w, "q")
+			cfg.flows = append(cfg.flows, fd)
 			outs[i] = "ok"
 		case "proc":
 			if len(w) != 4 || cfg.flow(proto.Dec(w[1])) == nil {
@@ -307,7 +338,24 @@ func exec(c proto.Case, o *proto.Out) []string {
 				outs[i] = "unsafe-cycle"
 				break
 			}
-			res, evs, acts := eng.runTxn(dir, oracle)
+			at := defaultAttrs()
+			if m, ok := proto.KV(w, "m"); ok {
+				at.method = proto.Dec(m)
+			}
+			if m, ok := proto.KV(w, "rm"); ok {
+				at.respMethod = proto.Dec(m)
+			}
+			if st, ok := proto.KV(w, "st"); ok {
+				fmt.Sscanf(st, "%d", &at.status)
+			}
+			at.headers = decPairs(w, "h")
+			at.query = decPairs(w, "q")
+			for k := range at.query {
+				if at.query[k][1] == "\x00" {
+					at.query[k][1] = ""
+				}
+			}
+			res, evs, acts := eng.runTxn(dir, oracle, at)
 			o.Count("txn-" + dir + "-" + res)
 			np := 0
 			for _, e := range evs {
